@@ -223,3 +223,20 @@ func VerifPreparedCacheLen(s *Session) int {
 	defer s.stmtsLRU.mu.Unlock()
 	return s.stmtsLRU.lru.Len()
 }
+
+var verifWriteObserver atomic.Value // of func([]byte, int, error)
+
+// VerifSetWriteObserver installs a function that is told, for every request frame, what the
+// connection writer reported to exec: the frame, the byte count and the error.
+func VerifSetWriteObserver(f func(frame []byte, n int, err error)) {
+	if f == nil {
+		f = func([]byte, int, error) {}
+	}
+	verifWriteObserver.Store(f)
+}
+
+func verifWrote(frame []byte, n int, err error) {
+	if f, _ := verifWriteObserver.Load().(func([]byte, int, error)); f != nil {
+		f(frame, n, err)
+	}
+}
